@@ -66,6 +66,7 @@ func idxKey(index []ref.Range) string {
 }
 
 func runC06(c *fw.Ctx) {
+	deeperBounds(!c.Quick())
 	// ---- construction + At + NElems ----
 	for _, shape := range Shapes(0, c.Pick(4, 6), 3) {
 		shape := shape
@@ -87,7 +88,7 @@ func runC06(c *fw.Ctx) {
 	}
 	for i := 0; i < c.Pick(10000, 100000); i++ {
 		c.Case(func(k *fw.K) {
-			shape := RandShape(k.Rng, 4, 6, 3)
+			shape := RandShape(k.Rng, 4, maxSampledRank, 3)
 			n := k.Rng.Intn(len(shape) + 1)
 			index := make([]ref.Range, n)
 			for q := range index {
@@ -124,7 +125,7 @@ func runC06(c *fw.Ctx) {
 	}
 	for i := 0; i < c.Pick(10000, 100000); i++ {
 		c.Case(func(k *fw.K) {
-			dst := RandShape(k.Rng, 4, 6, 3)
+			dst := RandShape(k.Rng, 4, maxSampledRank, 3)
 			src := make([]int, len(dst))
 			for q := range src {
 				src[q] = 1 + k.Rng.Intn(dst[q])
@@ -248,7 +249,7 @@ func runC06(c *fw.Ctx) {
 	}
 	for i := 0; i < c.Pick(4000, 40000); i++ { // high-rank reshapes
 		c.Case(func(k *fw.K) {
-			shape := RandShape(k.Rng, 0, 6, 3)
+			shape := RandShape(k.Rng, 0, maxSampledRank, 3)
 			ts := shapesWithProduct(ref.Prod(shape), 6)
 			target := ts[k.Rng.Intn(len(ts))]
 			c06Simple(k, ref.Instr{Op: "reshape", Shape: target}, shape, "reshape/"+shapeKey(shape)+"/"+shapeKey(target))
